@@ -25,19 +25,21 @@ def methodNames (c : Code) (state : Name) : List Name := c.flatMap (itemMethods 
 def hasMethod (c : Code) (state name : Name) : Bool := (methodNames c state).contains name
 
 /-- names in the type namespace of the module the macro is invoked in -/
-def typeNames (c : Code) : List Name :=
-  c.flatMap fun
-    | .marker n => [n]
-    | .machineStruct n _ _ => [n]
-    | .eventEnum n _ _ => [n]
-    | .anyStateEnum n _ _ _ _ => [n]
-    | .dynStruct n _ _ => [n]
-    | _ => []
+def itemTypeNames : Item → List Name
+  | .marker n => [n]
+  | .machineStruct n _ _ => [n]
+  | .eventEnum n _ _ => [n]
+  | .anyStateEnum n _ _ _ _ => [n]
+  | .dynStruct n _ _ => [n]
+  | _ => []
 
-def markerNames (c : Code) : List Name :=
-  c.flatMap fun
-    | .marker n => [n]
-    | _ => []
+def typeNames (c : Code) : List Name := c.flatMap itemTypeNames
+
+def itemMarkerNames : Item → List Name
+  | .marker n => [n]
+  | _ => []
+
+def markerNames (c : Code) : List Name := c.flatMap itemMarkerNames
 
 def itemStructFields : Item → List Name
   | .machineStruct _ _ fs => [Name.lit "ctx", Name.lit "_state"] ++ fs.map (·.1)
@@ -45,29 +47,33 @@ def itemStructFields : Item → List Name
 
 def structFields (c : Code) : List Name := c.flatMap itemStructFields
 
-def eventVariants (c : Code) : List Name :=
-  c.flatMap fun
-    | .eventEnum _ vs _ => vs.map (·.1)
-    | _ => []
+def itemEventVariants : Item → List Name
+  | .eventEnum _ vs _ => vs.map (·.1)
+  | _ => []
 
-def anyVariants (c : Code) : List Name :=
-  c.flatMap fun
-    | .anyStateEnum _ _ _ vs _ => vs.map (·.1)
-    | _ => []
+def eventVariants (c : Code) : List Name := c.flatMap itemEventVariants
 
-def substatePairs (c : Code) : List (Name × Name) :=
-  c.flatMap fun
-    | .substateImpl a l => [(a, l)]
-    | _ => []
+def itemAnyVariants : Item → List Name
+  | .anyStateEnum _ _ _ vs _ => vs.map (·.1)
+  | _ => []
+
+def anyVariants (c : Code) : List Name := c.flatMap itemAnyVariants
+
+def itemSubstatePairs : Item → List (Name × Name)
+  | .substateImpl a l => [(a, l)]
+  | _ => []
+
+def substatePairs (c : Code) : List (Name × Name) := c.flatMap itemSubstatePairs
 
 /-- inherent methods of `Dynamic<M>` (both of its impl blocks) -/
-def dynMethods (c : Code) : List Name :=
-  c.flatMap fun
-    | .dynImpl _ _ _ _ _ _ _ _ accs =>
-      [Name.lit "new", Name.lit "handle", Name.lit "current_state"] ++
-        accs.flatMap fun a => [a.readName, a.writeName, a.setName]
-    | .extractImpl _ _ _ _ ms => ms.map (·.1)
-    | _ => []
+def itemDynMethods : Item → List Name
+  | .dynImpl _ _ _ _ _ _ _ _ accs =>
+    [Name.lit "new", Name.lit "handle", Name.lit "current_state"] ++
+      accs.flatMap fun a => [a.readName, a.writeName, a.setName]
+  | .extractImpl _ _ _ _ ms => ms.map (·.1)
+  | _ => []
+
+def dynMethods (c : Code) : List Name := c.flatMap itemDynMethods
 
 def isDynImpl : Item → Bool
   | .dynImpl .. => true
